@@ -20,7 +20,7 @@ use crate::hasher::HashError;
 use nom::branch::alt;
 use nom::bytes::complete::is_not;
 use nom::character::streaming as char_str;
-use nom::combinator::{map, recognize};
+use nom::combinator::{map, peek, recognize};
 use nom::multi::many0_count;
 use nom::error::ErrorKind;
 use nom::sequence::preceded;
@@ -131,8 +131,9 @@ impl Default for HashParser {
 #[derive(Debug, Clone, Copy)]
 enum ValidationState {
     /// Validation is still in progress and we are at the
-    /// top level in the body of an attribute.
-    Top,
+    /// top level in the body of an attribute. The flag records
+    /// whether an item has been seen in the body yet.
+    Top(bool),
     /// Validation is still in progress and we are
     /// N levels deep inside nested records or attributes.
     Nested(usize),
@@ -147,7 +148,8 @@ impl ValidationState {
 
     fn decrement(level: usize) -> ValidationState {
         if level == 1 {
-            ValidationState::Top
+            // The nested block that has just ended is (part of) an item.
+            ValidationState::Top(true)
         } else {
             ValidationState::Nested(level - 1)
         }
@@ -167,23 +169,49 @@ fn skip_until<'a>(stops: &'static str) -> impl FnMut(Span<'a>) -> IResult<Span<'
     )))
 }
 
+/// A line break at the top level of an attribute body. It separates two items (which makes the
+/// body an implicit record) only if an item came before it and something other than the end of
+/// the body follows it.
+fn line_break(seen_item: bool) -> impl FnMut(Span<'_>) -> IResult<Span<'_>, ValidationState> {
+    move |input| {
+        let (rest, _) = char_str::one_of("\n\r")(input)?;
+        if !seen_item {
+            return Ok((rest, ValidationState::Top(false)));
+        }
+        let (rest, _) = char_str::multispace0(rest)?;
+        let (_, next) = peek(char_str::anychar)(rest)?;
+        if next == AttrBody::end_delim() {
+            Ok((rest, ValidationState::Top(true)))
+        } else {
+            Ok((rest, ValidationState::finish(true)))
+        }
+    }
+}
+
 fn is_implicit_record(input: Span) -> bool {
-    let mut result: IResult<Span<'_>, ValidationState> = Ok((input, ValidationState::Top));
+    let mut result: IResult<Span<'_>, ValidationState> = Ok((input, ValidationState::Top(false)));
 
     loop {
         result = match result {
-            Ok((rest, ValidationState::Top)) => preceded(
-                skip_until(",;:{()\""),
-                alt((
-                    map(separator, |_| ValidationState::finish(true)),
-                    map(char_str::char(':'), |_| ValidationState::finish(true)),
-                    map(char_str::char('{'), |_| ValidationState::increment(0)),
-                    map(char_str::char('('), |_| ValidationState::increment(0)),
-                    map(char_str::char(AttrBody::end_delim()), |_| {
-                        ValidationState::finish(false)
-                    }),
-                )),
-            )(rest),
+            Ok((rest, ValidationState::Top(seen_item))) => {
+                match recognize(skip_until(",;:{()\"\n\r"))(rest) {
+                    Ok((rest, skipped)) => {
+                        let seen_item =
+                            seen_item || skipped.fragment().chars().any(|c| !c.is_whitespace());
+                        alt((
+                            map(separator, |_| ValidationState::finish(true)),
+                            map(char_str::char(':'), |_| ValidationState::finish(true)),
+                            map(char_str::char('{'), |_| ValidationState::increment(0)),
+                            map(char_str::char('('), |_| ValidationState::increment(0)),
+                            map(char_str::char(AttrBody::end_delim()), |_| {
+                                ValidationState::finish(false)
+                            }),
+                            line_break(seen_item),
+                        ))(rest)
+                    }
+                    Err(e) => Err(e),
+                }
+            }
             Ok((rest, ValidationState::Nested(level))) => preceded(
                 skip_until("{()}\""),
                 alt((
